@@ -8,8 +8,37 @@ def classify_crash(cr):
 
 SPEC = {
     'id': 'C12',
-    'lean_modules': ['AITB.Props.C12'],
+    'lean_modules': ['AITB.Props.C12Spec', 'AITB.Props.C12Interp'],
     'theorems': [
+        # headline statements (library tolerances / exact reading)
+        'AITB.Prune.extractDominated_spec', 'AITB.Prune.extractDominated_exact_spec',
+        'AITB.Prune.incremental_eq_union_spec', 'AITB.Prune.incremental_eq_union_exact',
+        'AITB.Prune.pruner_spec', 'AITB.Prune.dominates_not_transitive',
+        # generic pruning theorems (any element type, any domination test)
+        'AITB.Prune.extractDominated_perm', 'AITB.Prune.extractDominated_chain', 'AITB.Prune.extractDominated_value',
+        'AITB.Prune.extractDominated_value_exact', 'AITB.Prune.extractDominated_antichain',
+        'AITB.Prune.incremental_perm', 'AITB.Prune.incremental_chain', 'AITB.Prune.incremental_value', 'AITB.Prune.incremental_eq_union',
+        'AITB.Prune.extractDominated_congr', 'AITB.Prune.incremental_congr', 'AITB.Prune.pruner_congr',
+        'AITB.Prune.extractDominated_value_mem', 'AITB.Prune.extractDominated_antichain_mem',
+        'AITB.Prune.incremental_value_mem', 'AITB.Prune.incremental_eq_union_mem', 'AITB.Prune.pruner_envelope_mem',
+        # Pruner::operator() against the witness-oracle contract
+        'AITB.Prune.findBest_lt', 'AITB.Prune.findBest_max', 'AITB.Prune.takeOut_perm',
+        'AITB.Prune.cornersLoop_perm', 'AITB.Prune.cornersLoop_witness', 'AITB.Prune.cornersLoop_witness_belief',
+        'AITB.Prune.prunerLoop_perm', 'AITB.Prune.prunerLoop_envelope', 'AITB.Prune.prunerLoop_witness',
+        'AITB.Prune.pruner_perm', 'AITB.Prune.pruner_envelope', 'AITB.Prune.pruner_witness',
+        # soundness of the certificate checkers evaluated by the driver
+        'AITB.C12Check.isBeliefB_iff', 'AITB.C12Check.domAbs_value', 'AITB.C12Check.dominatesT_domAbs', 'AITB.C12Check.dominates_value',
+        'AITB.C12Check.domExact_value', 'AITB.C12Check.domExact_trans',
+        'AITB.C12Check.farkasOK_sound', 'AITB.C12Check.convex_dominance_sound', 'AITB.C12Check.farkas_keep_sound',
+        'AITB.C12Check.violationOK_sound', 'AITB.C12Check.neededOK_sound', 'AITB.C12Check.pairwiseOK_sound',
+        'AITB.C12Check.weak_duality_sound', 'AITB.C12Check.interp_sound',
+        # interpolation models
+        'AITB.Interp.sawLoop_minCF_nonpos', 'AITB.Interp.sawtooth_le_corner_bound', 'AITB.Interp.sawLoop_spec',
+        'AITB.Interp.basicV_le_corner', 'AITB.Interp.sawtooth_repaired_total', 'AITB.Interp.sawtooth_repaired_weights',
+        'AITB.Interp.sawtooth_repaired_value', 'AITB.Interp.sawtooth_repaired_weights_needs_hz',
+        'AITB.Interp.sawtooth_asFound_crash_witness', 'AITB.Interp.sawtooth_asFound_uninit_witness', 'AITB.Interp.sawtooth_asFound_slot_witness',
+        'AITB.Interp.lpInterp_variant_agree_full_support', 'AITB.Interp.lpInterp_asFound_slot_witness', 'AITB.Interp.lpInterp_repaired_slot_witness',
+        'AITB.Interp.lpInterp_asFound_nan_witness', 'AITB.Interp.lpInterp_repaired_nan_witness', 'AITB.Interp.lpinterp_weights',
     ],
     'harness': 'harness/c12.cpp',
     'level': 'proof',
